@@ -162,6 +162,14 @@ impl<R> NsReader<R> {
         }
     }
 
+    /// Should be called after the content of an element, including its end tag,
+    /// was skipped by one of the `read_to_end*` / `read_text` methods: the
+    /// namespace scope of that element must be closed before the next event,
+    /// the same way as if the `End` event would be returned to the user
+    pub(super) fn end_skipped(&mut self) {
+        self.pending_pop = true;
+    }
+
     pub(super) fn process_event<'i>(&mut self, event: Result<Event<'i>>) -> Result<Event<'i>> {
         match event {
             Ok(Event::Start(e)) => {
@@ -604,7 +612,10 @@ impl<R: BufRead> NsReader<R> {
     pub fn read_to_end_into(&mut self, end: QName, buf: &mut Vec<u8>) -> Result<Span> {
         // According to the https://www.w3.org/TR/xml11/#dt-etag, end name should
         // match literally the start name. See `Config::check_end_names` documentation
-        self.reader.read_to_end_into(end, buf)
+        self.pop();
+        let span = self.reader.read_to_end_into(end, buf)?;
+        self.end_skipped();
+        Ok(span)
     }
 }
 
@@ -840,7 +851,10 @@ impl<'i> NsReader<&'i [u8]> {
     pub fn read_to_end(&mut self, end: QName) -> Result<Span> {
         // According to the https://www.w3.org/TR/xml11/#dt-etag, end name should
         // match literally the start name. See `Config::check_end_names` documentation
-        self.reader.read_to_end(end)
+        self.pop();
+        let span = self.reader.read_to_end(end)?;
+        self.end_skipped();
+        Ok(span)
     }
 
     /// Reads content between start and end tags, including any markup. This
@@ -910,7 +924,10 @@ impl<'i> NsReader<&'i [u8]> {
     /// [`decoder()`]: Reader::decoder()
     #[inline]
     pub fn read_text(&mut self, end: QName) -> Result<Cow<'i, str>> {
-        self.reader.read_text(end)
+        self.pop();
+        let text = self.reader.read_text(end)?;
+        self.end_skipped();
+        Ok(text)
     }
 }
 
